@@ -26,6 +26,7 @@ FORBIDDEN = ['sorry', 'admit', 'native_decide', 'bv_decide', 'implemented_by', '
 sys.path.insert(0, os.path.join(ROOT, 'tools'))
 from props import PROPS, TRUSTED_BASE          # noqa: E402
 from protocol import pretty                    # noqa: E402
+import engine_oracle                           # noqa: E402
 
 RUN_TIMEOUT = [300]
 ENV = dict(os.environ, CARGO_NET_OFFLINE='true', GOPROXY='off', PIP_NO_INDEX='1')
@@ -116,42 +117,98 @@ def build_harness():
     return None
 
 
-def one_run(idx, pid, spec_run, seed):
-    """run one harness invocation + the model on its cases; returns a result dict"""
-    args = [HARNESS_EXE, spec_run['suite']] + spec_run['args'] + ['--seed', str(seed + 7919 * idx)]
-    t0 = time.time()
+def _big_stack():
+    import resource
     try:
-        p = subprocess.run(args, env=ENV, stdout=subprocess.PIPE, stderr=subprocess.PIPE, timeout=spec_run.get('timeout', RUN_TIMEOUT[0]))
-        hout = p.stdout.decode('utf-8', 'replace'); rc = p.returncode; herr = p.stderr.decode('utf-8', 'replace')
+        resource.setrlimit(resource.RLIMIT_STACK, (1 << 30, 1 << 30))
+    except Exception:
+        try:
+            soft, hard = resource.getrlimit(resource.RLIMIT_STACK)
+            resource.setrlimit(resource.RLIMIT_STACK, (hard, hard))
+        except Exception:
+            pass
+
+
+def run_model(minp, timeout=3600):
+    """pipe CASE lines through the compiled Lean driver; returns (rc, model records, spec records)"""
+    try:
+        mp = subprocess.run([MODEL_EXE], env=ENV, input=minp.encode(), stdout=subprocess.PIPE, stderr=subprocess.PIPE,
+                            timeout=timeout, preexec_fn=_big_stack)
+        rc = mp.returncode; out = mp.stdout.decode('utf-8', 'replace')
     except subprocess.TimeoutExpired as e:
-        hout = (e.stdout or b'').decode('utf-8', 'replace'); rc = -999; herr = 'timeout'
-    cases, impl, oracle, stats, triv = {}, {}, [], {}, set()
-    done = False
-    for line in hout.splitlines():
-        k = line.split(' ', 2)
-        if k[0] == 'CASE': cases[k[1]] = k[2]
-        elif k[0] == 'IMPL': impl[k[1]] = k[2] if len(k) > 2 else ''
-        elif k[0] == 'ORACLE':
-            q = line.split(' ', 4)
-            oracle.append((q[1], q[2], q[3], q[4] if len(q) > 4 else ''))
-        elif k[0] == 'STAT': stats[k[1]] = int(k[2])
-        elif k[0] == 'TRIV': triv.add(k[1])
-        elif k[0] == 'DONE': done = True
-    aborted = None
-    if not done:
-        pending = [c for c in cases if c not in impl]
-        last = sorted(cases, key=int)[-1] if cases else None
-        aborted = {'case_id': pending[-1] if pending else last, 'rc': rc, 'stderr': herr[-300:]}
-    minp = ''.join('CASE %s %s\n' % (c, cases[c]) for c in cases if c in impl)
-    mp = subprocess.run([MODEL_EXE], env=ENV, input=minp.encode(), stdout=subprocess.PIPE, stderr=subprocess.PIPE, timeout=3600)
-    model = {}
-    for line in mp.stdout.decode('utf-8', 'replace').splitlines():
+        rc = -999; out = (e.stdout or b'').decode('utf-8', 'replace')
+    model = {}; spec = {}
+    for line in out.splitlines():
         k = line.split(' ', 2)
         if k[0] == 'MODEL': model[k[1]] = k[2] if len(k) > 2 else ''
+        elif k[0] == 'SPEC': spec[k[1]] = k[2] if len(k) > 2 else ''
+    return rc, model, spec
+
+
+def one_run(idx, pid, spec_run, seed):
+    """run one harness invocation (resumed after cases on which implementation AND model diverge)
+    + the model on its cases; returns a result dict"""
+    base = [HARNESS_EXE, spec_run['suite']] + spec_run['args'] + ['--seed', str(seed + 7919 * idx)]
+    t0 = time.time()
+    cases, impl, oracle, stats, triv = {}, {}, [], {}, set()
+    aborted = None; diverging = []
+    skip = 0
+    deadline = t0 + spec_run.get('timeout', RUN_TIMEOUT[0])
+    for attempt in range(40):
+        args = base + (['--skip', str(skip)] if skip else [])
+        try:
+            p = subprocess.run(args, env=ENV, stdout=subprocess.PIPE, stderr=subprocess.PIPE, timeout=max(5, deadline - time.time()))
+            hout = p.stdout.decode('utf-8', 'replace'); rc = p.returncode; herr = p.stderr.decode('utf-8', 'replace')
+        except subprocess.TimeoutExpired as e:
+            hout = (e.stdout or b'').decode('utf-8', 'replace'); rc = -999; herr = 'timeout'
+        done = False; last = None
+        for line in hout.splitlines():
+            k = line.split(' ', 2)
+            if k[0] == 'CASE': cases[k[1]] = k[2]; last = k[1]
+            elif k[0] == 'IMPL': impl[k[1]] = k[2] if len(k) > 2 else ''
+            elif k[0] == 'ORACLE':
+                q = line.split(' ', 4)
+                oracle.append((q[1], q[2], q[3], q[4] if len(q) > 4 else ''))
+            elif k[0] == 'STAT': stats[k[1]] = stats.get(k[1], 0) + int(k[2])
+            elif k[0] == 'TRIV': triv.add(k[1])
+            elif k[0] == 'DONE': done = True
+        if done:
+            break
+        # the implementation did not return on case `last` (abort, stack overflow, watchdog, timeout)
+        if last is None or rc == -999:
+            aborted = {'case_id': last, 'rc': rc, 'stderr': herr[-300:]}
+            break
+        mrc, m1, _ = run_model('CASE %s %s\n' % (last, cases[last]), timeout=120)
+        mres = m1.get(last)
+        if mrc != 0 or mres is None or 'OOF' in mres or 'oof' in mres or 'CYCLIC' in mres:
+            # the model does not return either: an occurs-check situation (outside every claim); resume after it
+            diverging.append(last)
+            impl.pop(last, None)
+            oracle = [o for o in oracle if o[0] != last]
+            skip = int(last)
+            continue
+        aborted = {'case_id': last, 'rc': rc, 'stderr': herr[-300:], 'model': mres}
+        break
+    for c in diverging:
+        cases.pop(c, None)
+    if diverging:
+        stats['diverging_in_impl_and_model'] = len(diverging)
+    minp = ''.join('CASE %s %s\n' % (c, cases[c]) for c in cases if c in impl)
+    mrc, model, spec = run_model(minp)
+    # property oracle of the engine suites: implementation vs reference machine
+    so = spec_run.get('spec_oracle')
+    if so:
+        npass = 0
+        for c in impl:
+            if c in spec:
+                msg = engine_oracle.compare(impl[c], spec[c], so['what'])
+                if msg: oracle.append((c, so['prop'], 'FAIL', msg))
+                else: npass += 1
+        stats['spec_oracle_pass'] = npass
     mism = [c for c in impl if model.get(c) != impl[c]]
-    return {'idx': idx, 'run': spec_run, 'seed': seed + 7919 * idx, 'cases': cases, 'impl': impl, 'model': model, 'oracle': oracle,
+    return {'idx': idx, 'run': spec_run, 'seed': seed + 7919 * idx, 'cases': cases, 'impl': impl, 'model': model, 'spec': spec, 'oracle': oracle,
             'stats': stats, 'triv': triv, 'aborted': aborted, 'mismatch': mism, 'wall': time.time() - t0,
-            'model_rc': mp.returncode}
+            'model_rc': mrc}
 
 
 def load_findings():
@@ -231,9 +288,9 @@ def check(pid, tier, seed):
         lines.append('KNOWN-FINDING: property=%s %s' % (pid, f['what']))
 
     def case_payload(r, cid, extra):
-        return dict({'suite': r['run']['suite'], 'suite_args': r['run']['args'], 'seed': r['seed'], 'case_id': cid,
+        return dict({'suite': r['run']['suite'], 'suite_args': r['run']['args'], 'spec_oracle': r['run'].get('spec_oracle'), 'seed': r['seed'], 'case_id': cid,
                      'case': r['cases'].get(cid), 'case_pretty': pretty(r['cases'].get(cid, '')),
-                     'impl': r['impl'].get(cid), 'model': r['model'].get(cid)}, **extra)
+                     'impl': r['impl'].get(cid), 'model': r['model'].get(cid), 'spec': r.get('spec', {}).get(cid)}, **extra)
 
     if herr is not None:
         path = write_replay(pid, 'harness-build', {'detail': herr, 'note': 'the harness no longer builds against /repo; nothing could be run'})
@@ -300,21 +357,29 @@ def replay(pid, path):
     if herr:
         print('harness does not build:', herr); return 1
     args = [HARNESS_EXE, d['suite']] + d.get('suite_args', []) + ['--replay-case', d['case']]
-    rc, out = run(args)
-    mrc, mout = run([MODEL_EXE], inp='\n'.join(l for l in out.splitlines() if l.startswith('CASE')) + '\n')
+    rc, out = run(args, timeout=120)
+    cid = None
+    for l in out.splitlines():
+        if l.startswith('CASE'): cid = l.split(' ', 2)[1]
+    mrc, model_d, spec_d = run_model('\n'.join(l for l in out.splitlines() if l.startswith('CASE')) + '\n', timeout=300)
     print(pretty(d['case']))
     bad = False
-    impl = model = None
+    impl = None
     for l in out.splitlines():
-        if l.startswith('IMPL'): impl = l.split(' ', 2)[2]; print('IMPL  ', pretty(impl))
+        if l.startswith('IMPL'): impl = l.split(' ', 2)[2] if len(l.split(' ', 2)) > 2 else ''; print('IMPL  ', pretty(impl))
         if l.startswith('ORACLE'):
             print(l)
             q = l.split(' ', 4)
             if q[3] == 'FAIL' and q[2] in PROPS[pid].get('oracles', [pid]): bad = True
-    for l in mout.splitlines():
-        if l.startswith('MODEL'): model = l.split(' ', 2)[2]; print('MODEL ', pretty(model))
+    model = model_d.get(cid)
+    if model is not None: print('MODEL ', pretty(model))
+    if cid in spec_d: print('SPEC  ', pretty(spec_d[cid]))
+    so = d.get('spec_oracle')
+    if so and impl is not None and cid in spec_d:
+        msg = engine_oracle.compare(impl, spec_d[cid], so['what'])
+        if msg: print('ORACLE %s %s FAIL %s' % (cid, so['prop'], msg)); bad = True
     if impl is None: print('implementation did not return'); bad = True
-    if impl != model: print('model and implementation disagree'); bad = True
+    elif impl != model: print('model and implementation disagree'); bad = True
     print('replay: %s' % ('still failing' if bad else 'passes now'))
     return 1 if bad else 0
 
